@@ -52,6 +52,7 @@ from pydcop.dcop.relations import (
     find_dependent_relations,
     generate_assignment_as_dict,
     assignment_cost,
+    find_optimal,
     optimal_cost_value,
 )
 
@@ -465,7 +466,9 @@ class Mgm2Computation(VariableComputation):
         if not self.neighbors_vars:
             # If we don't have any neighbor, simply select the best value
             # for us and be done with it !
-            vals, cost = self._compute_best_value()
+            vals, cost = find_optimal(
+                self.variable, {}, self._constraints, self._mode
+            )
             value = random.choice(vals)
             self.value_selection(value, cost)
             if self.logger.isEnabledFor(logging.INFO):
